@@ -15,7 +15,10 @@ RULE = ('One generated macrobody card per case (BOX, RPP, SPH, RCC, RHP/HEX '
         '-b, +b and -b.k, +b.k for every facet k are converted and compared '
         'point-wise with the parametric solid / outward facet half-spaces of '
         'the harness model on uniform points and on points bisected onto '
-        'every facet. Non-trivial: body not axis-aligned or left-handed, and '
+        'every facet. One case in four places the body two universe levels '
+        'down instead (cells -b / +b.k / +b -b.k fill a sphere of a universe '
+        'that fills a sphere of the real world, each FILL with its own '
+        'transformation) and is judged point-wise like C05. Non-trivial: body not axis-aligned or left-handed, and '
         'every probe has decided points inside and outside; distinct = '
         '(kind, parameter vector).')
 ASSUMPTIONS = [
